@@ -205,7 +205,6 @@ func runMut(tb ev.TB, c mutCase) (labels []string, ok bool) {
 	return sortedKeys(lab), true
 }
 
-
 func genMutCase(t *rapid.T) mutCase {
 	o := logsim.Opts{MaxMagic: 2, MinMagic: int8(rapid.IntRange(0, 2).Draw(t, "minMagic")), MaxRecords: 12, MaxPerBatch: 4, Holes: true, EmptyBatch: true, Control: true,
 		Big: rapid.IntRange(0, 9).Draw(t, "big") == 0, Start: int64(rapid.SampledFrom([]int{0, 5, 1 << 33}).Draw(t, "base"))}
